@@ -164,3 +164,27 @@ Example C14_parse_stt_example :
   parse_stt 1 (join_nl lines) = Transition [66%nat] [65%nat] [102%nat] [] [97;99;116]%nat /\
   parse_stt 2 (join_nl lines) = empty_transition.
 Proof. cbv zeta. split; [repeat constructor|]. vm_compute. auto. Qed.
+
+(* ---- initial-state lines (detail::count_inits) ---- *)
+From Msm Require Import Lemmas_PumlCount.
+
+(* count_inits of a description is the number of its initial lines - the lines in which an arrow follows the "[*]" -
+   for every number of lines of every length: terminate lines ("State -> [*]": nothing behind the "[*]" but blanks),
+   lines without "[*]" and whatever stands behind a "[*]" are passed over and the count goes on behind them (finding
+   F25, repaired in /repo: the count used to stop at the first terminate line and later regions were lost).
+   single_star: at most one "[*]" per line.  The transcription answers for a description that ends in an initial line
+   without a final line end as well; the library itself throws there (substr(npos): a compile error in constexpr use). *)
+Theorem C14_count_inits_exact : forall lines,
+  Forall line_ok lines -> Forall single_star lines -> size (join_nl lines) < npos ->
+  count_inits (join_nl lines) = length (filter is_initb lines).
+Proof. exact count_inits_exact. Qed.
+Print Assumptions C14_count_inits_exact.
+
+(* "A -> [*]" / "[*] --> B" / "B -> A : e" / "--" / "  [*] -> C" / "": two initial lines, the terminate line in front
+   of them does not stop the count *)
+Example C14_count_inits_example :
+  let lines := [[65;32;45;62;32;91;42;93]; [91;42;93;32;45;45;62;32;66]; [66;32;45;62;32;65;32;58;32;101]; [45;45];
+                [32;32;91;42;93;32;45;62;32;67]; []]%nat in
+  Forall line_ok lines /\ Forall single_star lines /\ map is_initb lines = [false; true; false; false; true; false] /\
+  count_inits (join_nl lines) = 2%nat.
+Proof. cbv zeta. split; [repeat constructor|]. split; [repeat constructor|]. vm_compute. auto. Qed.
